@@ -9,7 +9,7 @@ def gen_consts(v):
     return v.gen_consts_cpp(ID, ['ola/web/JsonLexer.h'], [('MAX_DEPTH', 'ola::web::JsonLexer::MAX_DEPTH')],
                             os.path.join(v.VERIF, 'props', ID, 'coq', 'Gen.v'))
 
-SPEC_KEYS = (['valid', 'toks', 'str', 'rt', 'back', 'pre', 'eq', 'ok', 'tree', 'w', 'same', 'all', 'dall', 'chk', 'fresh', 'qe', 'ne', 'lt', 'le', 'gt', 'ge']
+SPEC_KEYS = (['valid', 'toks', 'str', 'rt', 'back', 'pre', 'eq', 'ok', 'tree', 'w', 'same', 'all', 'dall', 'chk', 'fresh', 'qe', 'ne', 'lt', 'le', 'gt', 'ge', 'pp', 'perr']
              + ['p%d' % i for i in range(16)]
              + ['r%d' % i for i in range(16)] + ['d%d' % i for i in range(16)])
 INTERNAL_KEYS = []          # 'err' (message text) and 'wl' are compared but are not property-determined
@@ -21,6 +21,8 @@ RULE = ('pointer token lists over {~ / 0 1 a "" ~0 ~1 ~01 ...} (all lists up to 
         'per-case watchdog, an exact-length sweep (every document size 1..4200 and 2^k-1..2^k+1 up to 65537), sequences of '
         'operator==/!=/</<=/>/>= on every pair of integer node kinds at 0, +-1, 2^31, 2^32, 2^63, 2^64 boundaries and their '
         '2^32/2^63/2^64 aliases in both orders (bare, inside containers, in patch test ops), sequences of '
+        'JSON Patch documents as TEXT through JsonPatchParser (well-formed, member order shuffled, duplicate/missing/wrongly '
+        'typed members, unknown ops, non-object elements, non-array documents, truncations) applied to generated targets, sequences of '
         'texts through ONE long-lived JsonParser (failing inside open containers at every depth, then valid), mutated documents, random '
         'bytes, NUL, nesting ladders around MAX_DEPTH and up to 64 KiB; API-built trees to depth 8; patch programs '
         'of 1-8 ops on generated documents with paths aimed at existing members, indices len-1/len/len+1, "-", '
@@ -32,9 +34,9 @@ TRUSTED = ['modelled rather than verified: JsonPointer.cpp (all), JsonLexer.cpp 
            'stacks folded into direct tree construction), JsonWriter.cpp + StringUtils Escape/EncodeString, '
            'JsonDouble::AsString, Json.cpp LookupElement*/InsertElementAt/RemoveElementAt/ReplaceElementAt/'
            'operator== for non-double values, JsonPatch.cpp (all ops), JsonData::Apply; '
-           'NOT modelled: JsonDouble::AsDouble (floating point/pow; its termination in time independent of the exponent value '
+           'JsonPatchParser.cpp (handler as a function of the parsed document with document-order members); NOT modelled: JsonDouble::AsDouble (floating point/pow; its termination in time independent of the exponent value '
            'is evidenced only by the 4 s per-case watchdog on generated exponents of 1-20 digits incl. the int32 extremes), '
-           'JsonPatchParser, JsonSchema, PointerTracker, double arithmetic (comparisons '
+           'JsonSchema, PointerTracker, double arithmetic (comparisons '
            'with doubles), JsonSections; MAX_DEPTH regenerated from JsonLexer.h']
 
 def hx(b):
@@ -203,6 +205,44 @@ def mutate(rng, s):
         elif k < 0.85: b = b[:i]
         else: b[i] = rng.randrange(256)
     return bytes(b)
+
+# ---------------------------------------------------------------- patch documents as text
+def gen_pdoc(rng):
+    """a JSON Patch document text (mostly well-formed, then damaged) + a target document"""
+    docenc = rand_tree(rng, rng.choice([1, 2, 3]), keys=PKEYS, small=True)
+    doc = tree_to_py(docenc)
+    elems = []
+    for _ in range(rng.choice([0, 1, 1, 2, 3, 5])):
+        k = rng.choice(['add', 'remove', 'replace', 'move', 'copy', 'test'])
+        m = [('op', json_str(k.encode()))]
+        m.append(('path', json_str(rand_ptr_text(rng, doc).encode('latin-1'))))
+        if k in ('add', 'replace', 'test'):
+            m.append(('value', render(rng, tree_to_py(rand_tree(rng, rng.choice([0, 1, 2]), keys=PKEYS, small=True)))))
+        if k in ('move', 'copy'):
+            m.append(('from', json_str(rand_ptr_text(rng, doc).encode('latin-1'))))
+        # damage / variation
+        for _ in range(rng.choice([0, 0, 0, 1, 1, 2])):
+            r = rng.randrange(12)
+            if r == 0 and m: del m[rng.randrange(len(m))]                                  # missing member
+            elif r == 1: m.append(('op', json_str(rng.choice([b'add', b'remove', b'Add', b'', b'delete', b'test']))))  # duplicate op
+            elif r == 2: m.insert(0, ('op', rng.choice(['5', 'null', 'true', '["add"]', '{"op": "add"}'])))   # op of a wrong type first
+            elif r == 3: m.append(('op', rng.choice(['5', 'null', '[]'])))                  # ... or last (ignored)
+            elif r == 4: m.append(('path', rng.choice(['7', 'null', '["/a"]', '{}'])))      # path of a wrong type (ignored)
+            elif r == 5: m.append(('value', rng.choice(['1', '"s"', 'null', '[1, {"a": 2}]', '{"a": 1, "a": 2}', '1.5'])))
+            elif r == 6: m.append((rng.choice(['extra', 'Op', 'PATH', '']), rng.choice(['1', '"x"', '[1, [2]]', '{"op": "remove"}'])))
+            elif r == 7: m.append(('from', rng.choice(['"/a"', '""', '3', '"x"'])))
+            elif r == 8: m = [(k2, v2) for k2, v2 in m if k2 != 'path']                     # missing path
+            elif r == 9: m.append(('path', json_str(rand_ptr_text(rng, doc).encode('latin-1'))))  # duplicate path (last wins)
+            else: rng.shuffle(m)
+        if rng.random() < 0.6: rng.shuffle(m)
+        ws = lambda: rng.choice(['', '', ' ', '\n  '])
+        elems.append('{' + ws() + (',' + ws()).join(json_str(k2.encode()) + ':' + ws() + v2 for k2, v2 in m) + ws() + '}')
+    r = rng.random()
+    if r < 0.08: elems.insert(rng.randrange(len(elems) + 1), rng.choice(['1', '"add"', 'null', '[]', '[{"op": "remove", "path": "/a"}]', 'true']))
+    text = '[' + ', '.join(elems) + ']'
+    if r > 0.92:
+        text = rng.choice(['{"op": "remove", "path": "/a"}', '1', '"x"', 'null', '', '[', text[:-1], text[:len(text) // 2], text + ']', text + ' x'])
+    return 'pdoc %s %s' % (','.join(docenc), hx(text.encode('latin-1')))
 
 # ---------------------------------------------------------------- numeric comparison
 CMP_VALUES = sorted(set([0, 1, -1, 2, -2, 2**31 - 1, 2**31, 2**31 + 1, -2**31, -2**31 + 1, -2**31 - 1, 2**32 - 1, 2**32,
@@ -442,6 +482,9 @@ def gen_cases(rng, tier):
     # equality / ordering of numeric nodes at the 32/64-bit boundaries, every pair of kinds, both orders
     for x, y in gen_cmp(rng, quick):
         yield 'cmp %s %s' % (x, y)
+    # patch documents given as text through JsonPatchParser
+    for _ in range(900 if quick else 40000):
+        yield gen_pdoc(rng)
     # API-built trees
     for _ in range(500 if quick else 30000):
         pr = rng.random() < 0.9
@@ -457,6 +500,7 @@ def nontrivial(payload, md):
     op = payload.split(' ', 1)[0]
     if op in ('ptr', 'ptrt'): return md.get('valid') == '1' and md.get('rt') == '1'
     if op == 'pre': return md.get('pre') == '1'
+    if op == 'pdoc': return md.get('pp') == '1' and md.get('all') == '1'
     if op == 'cmp': return md.get('eq') == '1' or md.get('lt') == '1'
     if op in ('parse', 'deep', 'len'): return md.get('ok') == '1'
     if op == 'seq': return any(v.startswith('ok:') for k, v in md.items() if k[0] == 'p') and any(v.startswith('err:') for k, v in md.items() if k[0] == 'p')
